@@ -315,3 +315,138 @@ func describeData(d bq.Dataset) string {
 func TestC03(t *testing.T) {
 	pbt.Run(t, "C03", "TestC03", genC03, checkC03)
 }
+
+// ---- exhaustive one- and two-clause shapes over a small vocabulary ----
+
+func c03ShapeVocabulary() (datasets []bq.Dataset, subj []func(i int) bq.SPos, pred []func(i int) bq.PPos, obj []func(i int) bq.OPos, extr []func(c *bq.Clause, i int)) {
+	n1, n2, n3 := model.NodeSpec{Type: "/u", ID: "a"}, model.NodeSpec{Type: "/u", ID: "b"}, model.NodeSpec{Type: "/t", ID: "a"}
+	t1 := model.TimeSpec{Sec: bq.BaseSec}
+	t1z := model.TimeSpec{Sec: bq.BaseSec, Off: 3600}
+	t2 := model.TimeSpec{Sec: bq.BaseSec + 86400, Nsec: 500000000}
+	pI, pT1, pT2 := model.PredSpec{ID: "p"}, model.PredSpec{ID: "p", Anchor: &t1}, model.PredSpec{ID: "p", Anchor: &t2}
+	qI, qT1 := model.PredSpec{ID: "q"}, model.PredSpec{ID: "q", Anchor: &t1z}
+	lit := model.LitSpec{Kind: "int64", I: 1}
+	tr := func(s model.NodeSpec, p model.PredSpec, o model.ObjSpec) model.TripleSpec {
+		return model.TripleSpec{S: s, P: p, O: o}
+	}
+	on := func(n model.NodeSpec) model.ObjSpec { return model.ObjSpec{N: &n} }
+	op := func(p model.PredSpec) model.ObjSpec { return model.ObjSpec{P: &p} }
+	ol := model.ObjSpec{L: &lit}
+	datasets = []bq.Dataset{
+		{"?g0": {tr(n1, pI, on(n2)), tr(n1, pT1, on(n2)), tr(n2, pI, on(n1)), tr(n1, qI, ol), tr(n2, pT2, op(qT1)), tr(n3, qT1, on(n1))}},
+		{"?g0": {tr(n1, pT1, on(n1)), tr(n1, pT2, ol), tr(n2, qT1, op(pT1)), tr(n2, pI, op(qI)), tr(n1, pI, on(n3))}},
+		{"?g0": {tr(n1, pI, on(n2)), tr(n2, pT1, ol)}, "?g1": {tr(n1, pI, on(n2)), tr(n3, pT1, on(n2)), tr(n2, qT1, op(qT1))}},
+	}
+	subj = []func(i int) bq.SPos{
+		func(i int) bq.SPos { n := n1; return bq.SPos{Node: &n} },
+		func(i int) bq.SPos { return bq.SPos{Binding: fmt.Sprintf("?s%d", i)} },
+		func(i int) bq.SPos { return bq.SPos{Binding: "?x"} },
+	}
+	lo := model.TimeSpec{Sec: bq.BaseSec}
+	pred = []func(i int) bq.PPos{
+		func(i int) bq.PPos { p := pI; return bq.PPos{Pred: &p} },
+		func(i int) bq.PPos { p := model.PredSpec{ID: "p", Anchor: &t1z}; return bq.PPos{Pred: &p} },
+		func(i int) bq.PPos { return bq.PPos{AnchorID: "p", AnchorB: fmt.Sprintf("?t%d", i)} },
+		func(i int) bq.PPos { l := lo; return bq.PPos{Bound: &bq.Bound{ID: "p", Lo: &l}} },
+		func(i int) bq.PPos { return bq.PPos{Binding: fmt.Sprintf("?p%d", i)} },
+		func(i int) bq.PPos { return bq.PPos{Binding: "?x"} },
+	}
+	obj = []func(i int) bq.OPos{
+		func(i int) bq.OPos { n := n2; return bq.OPos{Node: &n} },
+		func(i int) bq.OPos { l := lit; return bq.OPos{Lit: &l} },
+		func(i int) bq.OPos { return bq.OPos{Binding: fmt.Sprintf("?o%d", i)} },
+		func(i int) bq.OPos { return bq.OPos{Binding: "?x"} },
+		func(i int) bq.OPos { return bq.OPos{AnchorID: "q", AnchorB: fmt.Sprintf("?u%d", i)} },
+	}
+	extr = []func(c *bq.Clause, i int){
+		func(c *bq.Clause, i int) {},
+		func(c *bq.Clause, i int) { c.S.ID = fmt.Sprintf("?si%d", i) },
+		func(c *bq.Clause, i int) {
+			if c.O.Binding != "" || c.O.Node != nil {
+				c.O.Type = fmt.Sprintf("?ot%d", i)
+			} else {
+				c.S.Type = fmt.Sprintf("?st%d", i)
+			}
+		},
+		func(c *bq.Clause, i int) {
+			if c.P.Bound == nil {
+				c.P.At = fmt.Sprintf("?pa%d", i)
+			} else {
+				c.P.IDAlias = fmt.Sprintf("?pi%d", i)
+			}
+		},
+	}
+	return
+}
+
+func TestC03Shapes(t *testing.T) {
+	if pbt.ReplayPath() != "" {
+		pbt.Run(t, "C03", "TestC03Shapes", func(*rapid.T) c03Case { return c03Case{} }, checkC03)
+		return
+	}
+	datasets, subj, pred, obj, extr := c03ShapeVocabulary()
+	shard, nsh := pbt.Shard()
+	sample := uint64(16)
+	if pbt.Thorough() {
+		sample = 1
+	}
+	seed := pbt.Seed()
+	mk := func(code, i int) bq.Clause {
+		var c bq.Clause
+		c.S = subj[code%len(subj)](i)
+		code /= len(subj)
+		c.P = pred[code%len(pred)](i)
+		code /= len(pred)
+		c.O = obj[code%len(obj)](i)
+		code /= len(obj)
+		extr[code%len(extr)](&c, i)
+		return c
+	}
+	nshapes := len(subj) * len(pred) * len(obj) * len(extr)
+	idx := uint64(0)
+	run := func(cs []bq.Clause) {
+		for di, d := range datasets {
+			idx++
+			if int(idx%uint64(nsh)) != shard {
+				continue
+			}
+			if (idx*2654435761+seed*97)>>4%sample != 0 {
+				continue
+			}
+			var q bq.Query
+			q.Clauses = cs
+			var excl []string
+			if c2, renamed := avoidObjIDReuse(q.Clauses); renamed {
+				q.Clauses = c2
+				excl = append(excl, "KF-C03-OBJ-ID-UNCHECKED")
+			}
+			if c2, changed := avoidBindinglessClause(q.Clauses); changed {
+				q.Clauses = c2
+				excl = append(excl, "KF-C03-BINDINGLESS-CLAUSE")
+			}
+			q.From = d.Names()
+			all := bq.AllBindings(q.Clauses)
+			if len(all) == 0 {
+				continue
+			}
+			for _, b := range all {
+				q.Proj = append(q.Proj, bq.Proj{Binding: b})
+			}
+			_ = di
+			pbt.Eval(t, "C03", "TestC03Shapes", c03Case{Data: d, Q: q, Excluded: excl}, checkC03)
+		}
+	}
+	for a := 0; a < nshapes; a++ {
+		run([]bq.Clause{mk(a, 0)})
+	}
+	for a := 0; a < nshapes; a++ {
+		for b := 0; b < nshapes; b++ {
+			run([]bq.Clause{mk(a, 0), mk(b, 1)})
+		}
+	}
+	if pbt.Thorough() {
+		pbt.SetExhaustive("TestC03Shapes")
+	}
+	pbt.SetExtra("TestC03Shapes", "one_clause_shapes", nshapes)
+	pbt.SetExtra("TestC03Shapes", "sample_denominator", int(sample))
+}
